@@ -1856,9 +1856,15 @@ class MacroExpander:
                     while True:
                         tok = self.consume_tok()
                         if tok.token == "," and open_paren_count == 1:
-                            args.append(current_arg)
-                            current_arg = []
-                            continue
+                            # Commas between variable arguments are kept
+                            # as written; they are part of __VA_ARGS__.
+                            if not (
+                                macro_lookup.variadic
+                                and len(args) >= len(macro_lookup.args) - 1
+                            ):
+                                args.append(current_arg)
+                                current_arg = []
+                                continue
 
                         if tok.token == "(":
                             open_paren_count += 1
